@@ -1,12 +1,10 @@
 #!/bin/sh
 # offline setup: parse every specification with SANY and byte-compile the harness
-set -e
 cd "$(dirname "$0")"
-/venv/bin/python -m compileall -q harness check >/dev/null
-fail=0
-for f in specs/*.tla; do
-  out=$(cd specs && java -cp /opt/veriftools/tla/tla2tools.jar:/opt/veriftools/tla/CommunityModules-deps.jar tla2sany.SANY "$(basename "$f")" 2>&1) || true
-  if echo "$out" | grep -qE "Parse Error|Semantic errors|Fatal errors|\*\*\* Errors|Could not"; then echo "SANY FAILED: $f"; echo "$out" | tail -20; fail=1; fi
-done
-[ $fail -eq 0 ] && echo "setup ok"
-exit $fail
+/venv/bin/python -m compileall -q harness check >/dev/null || exit 1
+cd specs
+# (specs/stubs holds parse-only stand-ins for data modules that a driver generates per run)
+ls *.tla | xargs -P 8 -I{} sh -c 'out=$(java -DTLA-Library="$PWD/stubs" -cp /opt/veriftools/tla/tla2tools.jar:/opt/veriftools/tla/CommunityModules-deps.jar tla2sany.SANY "{}" 2>&1); if echo "$out" | grep -qE "Parse Error|Semantic errors|Fatal errors|\*\*\* Errors|Could not|Cannot find"; then echo "SANY FAILED: {}"; echo "$out" | tail -20; exit 255; fi'
+rc=$?
+[ $rc -eq 0 ] && echo "setup ok" && exit 0
+exit 1
